@@ -460,9 +460,12 @@ def random_tsd(rng, pool, nfeat):
     feats = {}
     for n in subset:
         if rng.random() < 0.5:
-            feats[n] = (rng.choice(["f", "g"]), rng.choice(["uima.cas.Integer", "uima.cas.String", "uima.cas.FSArray"]),
+            feats[n] = (rng.choice(["f", "g"]), rng.choice(["uima.cas.Integer", "uima.cas.String", "uima.cas.FSArray", "uima.cas.StringArray"]),
                         rng.choice([None, "uima.tcas.Annotation"]) if rng.random() < 0.3 else None)
-            if feats[n][1] != "uima.cas.FSArray":
+            if feats[n][1] == "uima.cas.StringArray":
+                # element types are compared for every range (absent = TOP), also where the range implies them
+                feats[n] = (feats[n][0], feats[n][1], rng.choice([None, "uima.cas.String"]))
+            elif feats[n][1] != "uima.cas.FSArray":
                 feats[n] = (feats[n][0], feats[n][1], None)
     tsd = {"types": [(n, par[n]) for n in subset], "feats": feats}
     if not internally_consistent(tsd):
